@@ -564,7 +564,7 @@ let pberr_s = function
   | BFormatError -> "FormatError" | BFormatTypeMismatch -> "FormatTypeMismatch"
   | BNumberingMixture -> "ArgumentNumberingMixture" | BRangeError -> "ArgumentRangeError" | BTypeMismatch -> "ArgumentTypeMismatch"
 let pybrace_res_s = function
-  | Ok (sg : pb_sig) -> "ok " ^ String.concat ";" (List.map (fun (k, (t, n)) -> akey_s k ^ "=" ^ tset_s t ^ "x" ^ string_of_int (int_of_nat n)) sg)
+  | Ok (sg : pb_sig) -> "ok " ^ String.concat ";" (List.map (fun (k, (t, n)) -> akey_s k ^ "=" ^ String.concat "|" (List.init (int_of_nat n) (fun _ -> tset_s t))) sg)
   | Err e -> "err " ^ pberr_s e
   | Crash c -> "crash " ^ crash_name c
 let optn_s = function None -> "-" | Some c -> ns c
